@@ -79,7 +79,7 @@ def main(argv):
         verdict = 'CAUGHT' if rc == 1 else ('HARNESS-ERROR' if rc == 2 else 'MISSED')
         print('%s %-28s %-8s %.0fs  %s' % (pid, m['id'], verdict, dt, sigs[0][:140] if sigs else ''))
         if rc == 2:
-            print(out[-1500:])
+            print(out[-700:])
         results.append((m['id'], verdict))
     return 0 if all(v == 'CAUGHT' for _i, v in results) else 1
 
